@@ -99,7 +99,62 @@ def build_file(case):
     return data, R, idx
 
 
+def run_far(ctx, case):
+    """a symbol table far into a sparse file whose names sit at string-table offsets >= 2**31 (st_name is an unsigned word), with SysV and
+    GNU hash sections built over it"""
+    from vf.enc.sparse import sparse_elf
+    L = lib()
+    cls, le, far, nameoff = case['cls'], case['le'], case['far'], case['nameoff']
+    names = ['', 'far_alpha', 'far_beta', 'far_alpha', 'x']
+    offs, chunks, pos = {}, {0: b'\0'}, nameoff
+    for nm in names[1:]:
+        if nm not in offs:
+            offs[nm] = pos
+            chunks[pos] = nm.encode() + b'\0'
+            pos += len(nm) + 1 + 7
+    offs[''] = 0
+    syms = b''.join(W.enc_sym(cls, le, offs[nm], 0x1000 + i, i, 0x12 if i else 0, 0, 1 if i else 0) for i, nm in enumerate(names))
+    bn = [n.encode() for n in names]
+    hashed = sorted(bn[1:], key=lambda b: W.gnu_hash(b) % 2)
+    order = [b''] + hashed
+    syms = b''.join(W.enc_sym(cls, le, offs[b.decode()], 0x1000 + i, i, 0x12 if i else 0, 0, 1 if i else 0) for i, b in enumerate(order))
+    sysv = W.enc_sysv_hash(le, order, 3)
+    gnu = W.enc_gnu_hash(cls, le, order, 1, 2, 1, 5)
+    secs = [{'name': '.dynstr', 'sh_type': 3, 'offset': far, 'size': pos, 'chunks': chunks},
+            {'name': '.dynsym', 'sh_type': 11, 'sh_link': 1, 'sh_info': 1, 'sh_entsize': W.SYM_SIZE[cls], 'offset': far + pos + 0x100, 'size': len(syms), 'chunks': {0: syms}},
+            {'name': '.hash', 'sh_type': 5, 'sh_link': 2, 'sh_entsize': 4, 'offset': far + pos + 0x1000, 'size': len(sysv), 'chunks': {0: sysv}},
+            {'name': '.gnu.hash', 'sh_type': 0x6ffffff6, 'sh_link': 2, 'offset': far + pos + 0x2000, 'size': len(gnu), 'chunks': {0: gnu}}]
+    stream, _h = sparse_elf(cls, le, secs)
+    tag = 'far|st_name>=%#x' % nameoff
+    try:
+        ef = L['ELFFile'](stream)
+        tab = ef.get_section(2)
+        got = [(sy.name, sy['st_value'], sy['st_name']) for sy in tab.iter_symbols()]
+        want = [(b.decode(), 0x1000 + i, offs[b.decode()]) for i, b in enumerate(order)]
+        if got != want or tab.num_symbols() != len(order):
+            ctx.fail(tag + '|symbols', 'expected %r got %r' % (want, got), case)
+        for q in ('far_alpha', 'far_beta', 'x', 'absent', ''):
+            r = tab.get_symbol_by_name(q)
+            n = sum(1 for b in order if b.decode() == q)
+            if (len(r) if r else 0) != n:
+                ctx.fail(tag + '|by_name', 'query %r: %d symbols bear the name, got %r' % (q, n, r and len(r)), case)
+            for hi in (3, 4):
+                hs = ef.get_section(hi)
+                g = hs.get_symbol(q)
+                present = q.encode() in order[1:]
+                if (g is not None and g.name != q) or (g is None) == present:
+                    ctx.fail(tag + '|%s-lookup' % ('sysv' if hi == 3 else 'gnu'), 'query %r: %s' % (q, 'None' if g is None else g.name), case)
+                if hs.get_number_of_symbols() != len(order):
+                    ctx.fail(tag + '|%s-count' % ('sysv' if hi == 3 else 'gnu'), 'got %r' % hs.get_number_of_symbols(), case)
+    except Exception as e:  # noqa
+        ctx.fail_exc(tag, e, case)
+    ctx.count('far.tables')
+    ctx.case(('far', cls, le, far, nameoff), True, dict(case))
+
+
 def run_case(ctx, case):
+    if case.get('far') is not None:
+        return run_far(ctx, case)
     L = lib()
     E = L['E']
     T_BIND = {k: v for k, v in E.ENUM_ST_INFO_BIND.items() if isinstance(v, int)}
@@ -392,6 +447,10 @@ def sweep(tier):
     ch = RndChooser(31337)
     for n in (1, 2, 400):
         cases.append(build_case(ch, tier, n))
+    # string offsets >= 2**31 and tables far into the file (sparse files)
+    for k, (cls, far, nameoff) in enumerate(((64, 0x1000, 0x7ffffff0), (64, 0x1000, 0x80000010), (64, 1 << 32, 0xfffffe00), (32, 0x1000, 0x7ffffff8),
+                                             (32, 0x2000, 0x80000100), (64, (1 << 40) + 0x10, 0x90000000))):
+        cases.append({'far': far, 'nameoff': nameoff, 'cls': cls, 'le': bool(k % 2)})
     # tables at section indices in and around 0xff00..0xffff (reserved values of 16-bit fields, ordinary values of the 32-bit sh_link)
     for k, pad in enumerate((0xfeff, 0xff00, 0xfffd, 0x10000) if tier == 'thorough' else (0xfeff, 0xfffd)):
         c = build_case(RndChooser(4242 + k), tier, 12)
@@ -412,5 +471,5 @@ def floors(ctx):
     need = ['gnu.query.present.full-hash-collision', 'gnu.query.present.hash-equal-up-to-bit0', 'gnu.query.absent.full-hash-collision',
             'gnu.query.absent.hash-equal-up-to-bit0', 'sysv.query.present.full-hash-collision', 'sysv.query.absent.full-hash-collision',
             'gnu.query.present.same-bucket', 'sysv.query.absent.same-bucket', 'xindex.symbol', 'syminfo.table', 'tab.symtab', 'tab.dynsym', 'tab.ldynsym',
-            'cell.32le', 'cell.32be', 'cell.64le', 'cell.64be']
+            'cell.32le', 'cell.32be', 'cell.64le', 'cell.64be', 'far.tables']
     return ['no case of class ' + k for k in need if c[k] == 0]
